@@ -167,7 +167,7 @@ type profile struct {
 
 var profiles = map[string]profile{
 	"C04": {minTargets: 1, maxTargets: 2, modes: []string{"stream"}, gatedPct: 25, maxSteps: 30, maxSubs: 3, preload: 3, starPct: 30, pickPct: 40, bulkPct: 4, bulkNs: []int{5, 33, 40, 70, 130},
-		weights: map[string]int{"w": 14, "start": 5, "release": 5, "relw": 3, "grant": 3, "check": 2, "drain": 2, "sleep": 1, "wrace": 2, "cancel": 2},
+		weights: map[string]int{"w": 14, "start": 5, "release": 5, "relw": 3, "grant": 3, "check": 2, "drain": 2, "sleep": 1, "wrace": 2, "cancel": 2, "eof": 1},
 		wkinds:  []string{"noti", "noti", "noti", "noti", "noti", "noti", "noti", "noti", "reset", "sync", "updmeta"},
 		parks:   []string{"", "sub.pre-register", "sub.registered", "sub.walk.begin", "sub.walk.end", "coalesce.next.empty"}},
 	"C05": {minTargets: 1, maxTargets: 3, modes: []string{"once", "poll", "poll"}, gatedPct: 20, maxSteps: 24, maxSubs: 3, preload: 5, starPct: 35, pickPct: 30, bulkPct: 5, bulkNs: []int{5, 33, 70, 130, 257, 300, 520},
@@ -175,7 +175,7 @@ var profiles = map[string]profile{
 		wkinds:  []string{"noti", "noti", "noti", "noti", "reset", "remove", "add"},
 		parks:   []string{"", "", "sub.walk.begin", "sub.walk.end", "coalesce.next.empty", "coalesce.next.empty"}},
 	"C07": {minTargets: 2, maxTargets: 4, modes: []string{"stream", "stream", "once", "poll"}, acl: true, gatedPct: 15, maxSteps: 30, maxSubs: 4, preload: 4, starPct: 60, pickPct: 30, timeout: true, bulkPct: 3, bulkNs: []int{5, 40, 70}, viaPct: 10, firstPct: 8,
-		weights: map[string]int{"w": 14, "start": 6, "release": 3, "relw": 2, "poll": 2, "grant": 2, "check": 2, "drain": 2, "sleep": 2, "aclflip": 2},
+		weights: map[string]int{"w": 14, "start": 6, "release": 3, "relw": 2, "poll": 2, "grant": 2, "check": 2, "drain": 2, "sleep": 2, "aclflip": 2, "eof": 1},
 		wkinds:  []string{"noti", "noti", "noti", "noti", "noti", "noti", "reset", "remove", "add"},
 		parks:   []string{"", "", "sub.registered", "sub.walk.begin"}},
 	"C08": {minTargets: 1, maxTargets: 2, modes: []string{"stream"}, gatedPct: 70, maxSteps: 36, maxSubs: 3, preload: 3, timeout: true, starPct: 30, pickPct: 60, aclPct: 25, bulkPct: 5, bulkNs: []int{5, 33, 40, 70, 130},
@@ -183,7 +183,7 @@ var profiles = map[string]profile{
 		wkinds:  []string{"noti", "noti", "noti", "noti", "noti", "noti", "noti", "noti", "noti", "noti", "noti", "noti", "noti", "noti", "reset"},
 		parks:   []string{""}},
 	"C14": {minTargets: 2, maxTargets: 4, modes: []string{"stream"}, gatedPct: 30, maxSteps: 30, maxSubs: 4, preload: 4, starPct: 35, pickPct: 30, bulkPct: 4, bulkNs: []int{5, 40, 70},
-		weights: map[string]int{"w": 14, "start": 6, "release": 2, "relw": 2, "check": 2, "drain": 3, "rmadd": 2, "wrace": 3, "grant": 2, "cancel": 1},
+		weights: map[string]int{"w": 14, "start": 6, "release": 2, "relw": 2, "check": 2, "drain": 3, "rmadd": 2, "wrace": 3, "grant": 2, "cancel": 1, "eof": 1},
 		wkinds:  []string{"noti", "noti", "noti", "noti", "noti", "reset", "reset", "remove", "remove", "add", "add"},
 		parks:   []string{"", "", "sub.registered"}},
 }
